@@ -314,6 +314,74 @@ let run_specscene toks =
    | Some (k, a, b, cc, d) -> Printf.printf "%s spec %d frame=%d formula=%d cov=%d other=%d\n" id k a b cc d
    | None -> Printf.printf "%s spec -1 frame=0 formula=0 cov=0 other=0\n" id)
 
+
+(* ------------------------------------------------------------------ *)
+(* path engine *)
+let fbits x = string_of_int (int_of_z (F32.to_bits x))
+let ptstr (x, y) = fbits x ^ " " ^ fbits y
+let path_string (p : PathF.path) =
+  let ops = p.PathF.p_ops in
+  let b = Buffer.create 256 in
+  Buffer.add_string b (Printf.sprintf "P %d %d" (match p.PathF.p_winding with Raster.NonZero -> 0 | Raster.EvenOdd -> 1) (Stdlib.List.length ops));
+  Stdlib.List.iter (fun o -> match o with
+    | PathF.MoveTo q -> Buffer.add_string b (" M " ^ ptstr q)
+    | PathF.LineTo q -> Buffer.add_string b (" L " ^ ptstr q)
+    | PathF.QuadTo (c, q) -> Buffer.add_string b (" Q " ^ ptstr c ^ " " ^ ptstr q)
+    | PathF.CubicTo (c1, c2, q, _) -> Buffer.add_string b (" C " ^ ptstr c1 ^ " " ^ ptstr c2 ^ " " ^ ptstr q ^ " K 0")
+    | PathF.Close -> Buffer.add_string b " Z") ops;
+  Buffer.contents b
+let path_result id = function
+  | Base.Ok p -> Printf.printf "%s ok %s\n" id (path_string p)
+  | Base.Err e -> Printf.printf "%s err %s\n" id (err_name e)
+let expect c t = let x = next c in if x <> t then failwith ("expected " ^ t ^ " got " ^ x)
+let nstyle c =
+  expect c "STYLE";
+  let w = nf c in
+  let cap = (match next c with "butt" -> PathOps.CapButt | "round" -> PathOps.CapRound | "square" -> PathOps.CapSquare | t -> failwith t) in
+  let join = (match next c with "miter" -> PathOps.JoinMiter | "round" -> PathOps.JoinRound | "bevel" -> PathOps.JoinBevel | t -> failwith t) in
+  let ml = nf c in
+  let n = nint c in
+  let dashes = ntimes n (fun () -> nf c) in
+  let off = nf c in
+  ({ PathOps.s_width = w; PathOps.s_cap = cap; PathOps.s_join = join; PathOps.s_miter = ml }, dashes, off)
+
+let run_path kind toks =
+  let c = { toks = Array.of_list toks; i = 0 } in
+  let id = next c in
+  match kind with
+  | "pcontains" ->
+    let _tol = nf c in let x = nf c in let y = nf c in
+    let _p = npath c in
+    expect c "FLAT";
+    let flat = npath c in
+    (match PathOps.contains_point_flat flat x y with
+     | Base.Ok b -> Printf.printf "%s ok %s\n" id (if b then "true" else "false")
+     | Base.Err e -> Printf.printf "%s err %s\n" id (err_name e))
+  | "pflatten" ->
+    let _tol = nf c in
+    let p = npath c in
+    expect c "ORACLE";
+    let n = nint c in
+    let oracle = ntimes n (fun () -> let k = nint c in ntimes k (fun () -> npt c)) in
+    path_result id (Base.Ok (PathOps.flatten p oracle))
+  | "pdash" ->
+    let n = nint c in
+    let arr = ntimes n (fun () -> nf c) in
+    let off = nf c in
+    let p = npath c in
+    path_result id (PathOps.dash_path arr p off)
+  | "pstroke" ->
+    let (st, _, _) = nstyle c in
+    let p = npath c in
+    path_result id (PathOps.stroke_to_path p st)
+  | "prect" ->
+    let x = nf c in let y = nf c in let w = nf c in let h = nf c in
+    path_result id (Base.Ok { PathF.p_ops = PathOps.builder_rect x y w h; PathF.p_winding = Raster.NonZero })
+  | "ptransform" ->
+    let t = nxf c in let p = npath c in
+    path_result id (Base.Ok (PathOps.path_transform t p))
+  | _ -> failwith ("path kind " ^ kind)
+
 let () =
   try
     while true do
@@ -325,6 +393,7 @@ let () =
       | "surfspec" :: rest -> run_surface_spec rest
       | "scene" :: rest -> run_scene rest
       | "specscene" :: rest -> run_specscene rest
+      | ("pcontains" | "pflatten" | "pdash" | "pstroke" | "prect" | "ptransform" as k) :: rest -> run_path k rest
       | t :: _ -> failwith ("unknown case kind " ^ t)
     done
   with End_of_file -> ()
